@@ -113,32 +113,98 @@ func genFire(p *pkgFiles, fs fireSpec, out *strings.Builder) {
 		problem("%s: function not found", where)
 		return
 	}
+	paramsOf := func(fd *ast.FuncDecl) []string {
+		var ps []string
+		for _, f := range fd.Type.Params.List {
+			for _, n := range f.Names {
+				ps = append(ps, n.Name)
+			}
+		}
+		return ps
+	}
+	// the event index and the mask parameters as they are called in the function that holds the logic
+	evtIndex := fs.evtIndex
+	maskName := map[string]string{}
+	for _, mk := range fs.masks {
+		maskName[mk] = mk
+	}
+	earlyName := "earlyOut"
+	// a function that only forwards to a helper of the manager (`return m.helper(X, args…)`, a common
+	// refactoring when several Fire* functions share their body): the logic is the helper's, with
+	// its parameters bound to the arguments
+	for depth := 0; depth < 3 && len(fd.Body.List) == 1; depth++ {
+		var call *ast.CallExpr
+		switch st := fd.Body.List[0].(type) {
+		case *ast.ReturnStmt:
+			if len(st.Results) == 1 {
+				call, _ = st.Results[0].(*ast.CallExpr)
+			}
+		case *ast.ExprStmt:
+			call, _ = st.X.(*ast.CallExpr)
+		}
+		if call == nil {
+			break
+		}
+		sel, ok := call.Fun.(*ast.SelectorExpr)
+		if !ok || src(sel.X) != "m" {
+			break
+		}
+		helper := p.findFunc("events.go", "observerManager", sel.Sel.Name)
+		if helper == nil || helper.Body == nil {
+			break
+		}
+		hp := paramsOf(helper)
+		if len(hp) != len(call.Args) {
+			problem("%s: forwards to %s with a different number of arguments", where, sel.Sel.Name)
+			return
+		}
+		newMask := map[string]string{}
+		newEvt := ""
+		for i, a := range call.Args {
+			as := strings.TrimPrefix(src(a), "&")
+			if as == evtIndex {
+				newEvt = hp[i]
+			}
+			for mk, cur := range maskName {
+				if as == cur {
+					newMask[mk] = hp[i]
+				}
+			}
+			if as == earlyName {
+				earlyName = hp[i]
+			}
+		}
+		if newEvt == "" {
+			// the helper may use the constant itself
+			newEvt = evtIndex
+		}
+		if len(newMask) != len(maskName) {
+			problem("%s: forwards to %s without passing all mask parameters", where, sel.Sel.Name)
+			return
+		}
+		evtIndex, maskName, fd = newEvt, newMask, helper
+	}
 	// environment of leaves
 	aggEnv := map[string]string{}
 	for _, f := range []string{"anyNoComps", "anyNoWith", "allComps", "allWith"} {
-		aggEnv["m."+f+"["+fs.evtIndex+"]"] = f
+		aggEnv["m."+f+"["+evtIndex+"]"] = f
 	}
 	for _, mk := range fs.masks {
-		aggEnv[mk] = mk
+		aggEnv[maskName[mk]] = mk
 	}
 	obsEnv := map[string]string{}
 	for _, f := range []string{"hasComps", "hasWith", "hasWithout", "compsMask", "withMask", "withoutMask"} {
 		obsEnv["o."+f] = f
 	}
 	for _, mk := range fs.masks {
-		obsEnv[mk] = mk
+		obsEnv[maskName[mk]] = mk
 	}
 	// check the parameter list
-	var params []string
-	for _, f := range fd.Type.Params.List {
-		for _, n := range f.Names {
-			params = append(params, n.Name)
-		}
-	}
+	params := paramsOf(fd)
 	for _, mk := range fs.masks {
 		found := false
 		for _, pn := range params {
-			if pn == mk {
+			if pn == maskName[mk] {
 				found = true
 			}
 		}
@@ -159,7 +225,7 @@ func genFire(p *pkgFiles, fs fireSpec, out *strings.Builder) {
 			break
 		}
 		if fs.hasEarly {
-			if id, ok := ifs.Cond.(*ast.Ident); ok && id.Name == "earlyOut" && ifs.Else == nil {
+			if id, ok := ifs.Cond.(*ast.Ident); ok && id.Name == earlyName && ifs.Else == nil {
 				// if earlyOut { if C {return false} ... }
 				for _, s := range ifs.Body.List {
 					in, ok := s.(*ast.IfStmt)
@@ -175,7 +241,7 @@ func genFire(p *pkgFiles, fs fireSpec, out *strings.Builder) {
 			if be, ok := ifs.Cond.(*ast.BinaryExpr); ok && be.Op == token.LAND && ifs.Else == nil && isEarlyReturn(ifs.Body) {
 				// strip the leading `earlyOut &&`
 				conj := flattenAnd(be)
-				if id, ok := conj[0].(*ast.Ident); ok && id.Name == "earlyOut" {
+				if id, ok := conj[0].(*ast.Ident); ok && id.Name == earlyName {
 					parts := []string{}
 					for _, c := range conj[1:] {
 						parts = append(parts, trBool(c, aggEnv, where))
@@ -201,7 +267,7 @@ func genFire(p *pkgFiles, fs fireSpec, out *strings.Builder) {
 		switch st := s.(type) {
 		case *ast.AssignStmt:
 			txt := src(st)
-			if txt == "observers := m.observers["+fs.evtIndex+"]" {
+			if txt == "observers := m.observers["+evtIndex+"]" {
 				sawObservers = true
 			} else if txt == "found := false" {
 			} else {
@@ -217,8 +283,11 @@ func genFire(p *pkgFiles, fs fireSpec, out *strings.Builder) {
 			problem("%s: unexpected statement: %s", where, src(s))
 		}
 	}
-	if !sawObservers || loop == nil || src(loop.X) != "observers" || loop.Value == nil || src(loop.Value) != "o" {
-		problem("%s: dispatch loop `for _, o := range observers` over m.observers[%s] not found", where, fs.evtIndex)
+	// `for _, o := range observers` after `observers := m.observers[X]`, or directly `range m.observers[X]`
+	// (the range operand is evaluated once either way)
+	direct := loop != nil && src(loop.X) == "m.observers["+evtIndex+"]"
+	if loop == nil || !((sawObservers && src(loop.X) == "observers") || direct) || loop.Value == nil || src(loop.Value) != "o" {
+		problem("%s: dispatch loop `for _, o := range observers` over m.observers[%s] not found", where, evtIndex)
 		return
 	}
 	// loop body: zero or more `if C { continue }`, then o.callback(e), [found = true]
@@ -359,17 +428,42 @@ func genObserverReset(p *pkgFiles, out *strings.Builder) {
 		return
 	}
 	var loop *ast.RangeStmt
+	var boundE ast.Expr
+	plusOne := false // `i <= b`: b + 1 iterations (in the type of the comparison, which is int here)
 	for _, s := range fd.Body.List {
-		if r, ok := s.(*ast.RangeStmt); ok {
+		if r, ok := s.(*ast.RangeStmt); ok && r.Key != nil {
 			loop = r
+			boundE = r.X
+		}
+		// the classic form `for i := 0; i < <bound>; i++` visits the same indices; the bound must not
+		// mention the loop variable
+		if f, ok := s.(*ast.ForStmt); ok && f.Init != nil && f.Cond != nil && f.Post != nil {
+			init, ok1 := f.Init.(*ast.AssignStmt)
+			cond, ok2 := f.Cond.(*ast.BinaryExpr)
+			post, ok3 := f.Post.(*ast.IncDecStmt)
+			if ok1 && ok2 && ok3 && init.Tok == token.DEFINE && len(init.Lhs) == 1 && len(init.Rhs) == 1 &&
+				src(init.Rhs[0]) == "0" && (cond.Op == token.LSS || cond.Op == token.LEQ) && src(cond.X) == src(init.Lhs[0]) &&
+				post.Tok == token.INC && src(post.X) == src(init.Lhs[0]) && !strings.Contains(src(cond.Y), src(init.Lhs[0])+" ") {
+				boundE = cond.Y
+				plusOne = cond.Op == token.LEQ
+			}
 		}
 	}
-	if loop == nil || loop.Key == nil {
+	if boundE == nil {
 		problem("%s: `for i := range <bound>` loop not found", where)
 		return
 	}
-	bound, _ := trNat(loop.X, map[string]string{"m.maxEventType": "maxEventType"}, nil, where)
-	fmt.Fprintf(out, "/-- number of event types visited by the loop of `observerManager.Reset` (`range %s`) -/\n", src(loop.X))
+	_ = loop
+	bound, is8 := trNat(boundE, map[string]string{"m.maxEventType": "maxEventType"}, nil, where)
+	if plusOne {
+		if is8 {
+			// `i <= b` with b of type uint8 and i of type uint8 never terminates at b = 255: not translated
+			problem("%s: loop `i <= <uint8 bound>`", where)
+			return
+		}
+		bound = "(" + bound + " + 1)"
+	}
+	fmt.Fprintf(out, "/-- number of event types visited by the loop of `observerManager.Reset` (`range %s`) -/\n", src(boundE))
 	fmt.Fprintf(out, "def observerReset_bound (maxEventType : Nat) : Nat := %s\n\n", bound)
 }
 
